@@ -32,6 +32,9 @@ THREAD_CONFIGS = {
 }
 
 
+NEW_TRIAL_ID = 4  # SQLite: set-up creates trials 1..3
+
+
 def alphabet(v: int) -> dict[str, tuple]:
     """Collision-forcing operations; v = thread index (so lost updates are visible)."""
     return {
@@ -56,10 +59,16 @@ def alphabet(v: int) -> dict[str, tuple]:
         "study_attr": ("study_attr", "s", f"k{v}", v),
         "get_studies": ("get_all_studies",),
         "id_from_number": ("id_from_number", "s", 3),  # number 3 = the first trial created by a program
+        # the foreign worker of cached+foreign: claims / finishes the trial the cached client is
+        # just creating (SQLite gives it the next id after the three set-up trials)
+        "claim_new": ("set_state", NEW_TRIAL_ID, S.RUNNING, None),
+        "finish_new": ("set_state", NEW_TRIAL_ID, S.COMPLETE, (0.5,)),
+        "get_new": ("get_trial", NEW_TRIAL_ID),
     }
 
 
-NAMES = list(alphabet(0))
+FOREIGN_ONLY = ("claim_new", "finish_new", "get_new")
+NAMES = [n for n in alphabet(0) if n not in FOREIGN_ONLY]
 # quick tier, configurations other than mem: the ten most collision-prone operations
 QUICK_NAMES = ["create_trial", "create_waiting", "set_param", "user_attr", "claim", "finish", "create_study", "delete_study",
                "get_all_trials", "get_waiting"]
@@ -108,6 +117,11 @@ def scenarios(tier: str) -> list[tuple]:
         # a snapshot taken while another thread does two ordered writes on different trials must
         # not show the second write without the first
         out.append((cfg, (("get_all_dc",), ("finish", "claim")), 1 if tier == "quick" else 2))
+    # two threads of one caching client plus a foreign worker on the same database
+    for p in [(("create_waiting",), ("get_all_trials",), ("claim_new", "finish_new")),
+              (("create_trial",), ("get_all_trials",), ("finish_new",)),
+              (("create_waiting", "get_new"), ("get_waiting",), ("claim_new", "finish_new"))]:
+        out.append(("cached+foreign", p, 1 if tier == "quick" else 2))
     # Part B: processes / threads at SQL-statement level on one SQLite file
     for cfg in SQL_CONFIGS:
         bound = 1 if tier == "quick" else 2
@@ -163,6 +177,21 @@ def scenarios(tier: str) -> list[tuple]:
             out.append((cfg, (("create_trial", "user_attr"), ("create_trial", "finish")), 2))
             out.append((cfg, (("claim",), ("claim",), ("claim",)), 2))
     return out
+
+
+class CachedForeignScenario(Scenario):
+    """The threads but the last share ONE caching RDB client; the last thread is another worker
+    with its own plain RDBStorage connection to the same SQLite file (calls into SQLite are atomic
+    steps here: the statement-level interleavings are part B). The final state is read through
+    the caching client: a cache entry that went stale for good shows there."""
+
+    def env_config(self) -> str:
+        return "cached"
+
+    def worker_storages(self, env: Any, n: int) -> list:
+        raw = backends.open_rdb(env.raw_path)
+        env._cleanup.append(raw.engine.dispose)
+        return [env.storage] * (n - 1) + [raw]
 
 
 def build_programs(names: tuple) -> list[list[tuple]]:
@@ -238,6 +267,12 @@ def scenario_task(task: tuple) -> dict:
         _thx.set_instrumented([])
         sc = SqlScenario(cfg, "std", build_programs(names))
         engine = "procx-sql"
+    elif cfg == "cached+foreign":
+        from . import thx as _thx
+
+        _thx.install_copy_points(enabled=False)
+        sc = CachedForeignScenario(cfg, "std", build_programs(names), [importlib.import_module(m) for m in THREAD_CONFIGS["cached"]])
+        engine = "thx"
     else:
         mods = [importlib.import_module(m) for m in THREAD_CONFIGS[cfg]]
         from . import thx as _thx
@@ -318,6 +353,11 @@ def replay_case(raw: dict, part: Part) -> None:
 
         _thx.set_instrumented([])
         sc = SqlScenario(cfg, "std", build_programs(names))
+    elif cfg == "cached+foreign":
+        from . import thx as _thx
+
+        _thx.install_copy_points(enabled=False)
+        sc = CachedForeignScenario(cfg, "std", build_programs(names), [importlib.import_module(m) for m in THREAD_CONFIGS["cached"]])
     else:
         from . import thx as _thx
 
